@@ -25,6 +25,18 @@ def handle : List String → Option String
       let ys ← parseList? parseRat? ys
       let mask ← parseList? parseNat? mask
       some (if isLowerHull (xs.zip ys) (mask.map (· != 0)) then "1" else "0")
+  | ["c14.hullinterp", xs, ys, mask] => do
+      let xs ← parseList? parseRat? xs
+      let ys ← parseList? parseRat? ys
+      let mask ← parseList? parseNat? mask
+      some (showRats (hullInterp (xs.zip ys) (mask.map (· != 0))))
+  | ["c14.hullshift", c, xs, ys, mask] => do
+      let c ← parseRat? c
+      let xs ← parseList? parseRat? xs
+      let ys ← parseList? parseRat? ys
+      let mask ← parseList? parseNat? mask
+      let pts := shiftPts c (xs.zip ys)
+      some ((if isLowerHull pts (mask.map (· != 0)) then "1" else "0") ++ " " ++ showRats (hullInterp pts (mask.map (· != 0))))
   | _ => none
 
 end PbVerif.Drv.C14
